@@ -462,6 +462,10 @@ fn exec_dec_with(t: &[&str], prost: bool) -> String {
 
 // ---------- generators ----------
 
+/// buffer sizes every generator draws from: `BufferSettings::new` is public and takes any usize,
+/// 0 included (rev1 §1: 0 used to divide by zero in compress/decompress)
+pub const BUF_SIZES: [usize; 9] = [0, 1, 2, 3, 4, 5, 16, 1024, 8192];
+
 pub const ENCS: [Option<CompressionEncoding>; 4] = [
     None,
     Some(CompressionEncoding::Gzip),
@@ -623,7 +627,7 @@ pub fn gen_enc_case(rng: &mut Rng, errors: bool, limit: bool) -> EncCase {
         comp,
         disable: rng.chance(1, 5),
         yield_thr,
-        buf_size: *rng.pick(&[1usize, 5, 16, 1024, 8192]),
+        buf_size: *rng.pick(&BUF_SIZES),
         max,
         evs,
         items,
@@ -742,7 +746,7 @@ pub fn gen_dec_valid(rng: &mut Rng, limit: bool) -> DecCase {
     } else {
         None
     };
-    DecCase { dir, enc, max, buf_size: *rng.pick(&[1usize, 5, 16, 1024, 8192]), evs, stream: bytes, extra_polls: rng.below(4) as usize }
+    DecCase { dir, enc, max, buf_size: *rng.pick(&BUF_SIZES), evs, stream: bytes, extra_polls: rng.below(4) as usize }
 }
 
 /// Hostile input: mutations of a valid stream, truncations, raw random bytes, injected body
@@ -827,5 +831,5 @@ pub fn gen_dec_hostile(rng: &mut Rng) -> DecCase {
         1 => Some(4 * 1024 * 1024),
         _ => None,
     };
-    DecCase { dir: gen_dir(rng), enc, max, buf_size: *rng.pick(&[1usize, 16, 8192]), evs, stream: bytes, extra_polls: 3 + rng.below(6) as usize }
+    DecCase { dir: gen_dir(rng), enc, max, buf_size: *rng.pick(&BUF_SIZES), evs, stream: bytes, extra_polls: 3 + rng.below(6) as usize }
 }
